@@ -237,6 +237,7 @@ Definition se_new_events (c : se_cfg) (st : se_st) (op : se_op) : list se_ev :=
            | None => []
            end) ++ [SeNew (st_next st) key; SeRx key (st_next st)]
       end
+  | OpAccept key now => [SeNew (st_next st) key]
   | OpPrepare now => se_sweep_ev (se_expired c now) (st_tbl st)
   | OpFreeContext => se_sweep_ev (fun s => ss_ref s =? 0) (map se_drop_lib (st_tbl st))
   | _ => []
@@ -250,6 +251,7 @@ Proof.
     destruct (se_rx_evict c (st_tbl st)); reflexivity.
   - unfold se_rx_victim, se_rx_hit, se_rx_new. destruct (se_find key (st_tbl st)); cbn [st_log]; [reflexivity|].
     destruct (se_get victim (st_tbl st)); reflexivity.
+  - reflexivity.
   - unfold se_prepare. rewrite se_scan_sweep. reflexivity.
   - unfold se_free_context. rewrite se_teardown_sweep. reflexivity.
 Qed.
@@ -606,6 +608,46 @@ Proof.
                   | intros [H|[E|[]]]; [right; auto | left; auto]].
 Qed.
 
+Lemma se_inv_accept : forall st key now,
+  st_alive st = true -> se_inv st -> se_find key (st_tbl st) = None -> se_inv (se_accept st key now).
+Proof.
+  intros st key now Ha (Hk & Hi & (Hn & Hr) & Hh & Hl & m & Hm & Hp & Hmx & ND & Hiff) Hf.
+  assert (Hl0 := Hl Ha). rewrite Hl0 in Hiff. cbn [map] in Hiff.
+  assert (Hiff0: forall a b, In (a, b) (mo_live m) <-> In (a, b) (map se_pair (st_tbl st))).
+  { intros a b. rewrite Hiff, app_nil_r. tauto. }
+  clear Hiff. rename Hiff0 into Hiff.
+  unfold se_accept, se_inv. cbn [st_tbl st_next st_log st_alive st_leaked].
+  splits.
+  - rewrite map_app. cbn [map ss_key]. apply se_nodup_snoc; auto.
+    rewrite in_map_iff. intros (s & E & Hs). eapply se_find_none; eauto.
+  - rewrite map_app. cbn [map ss_id]. apply se_nodup_snoc; auto.
+    rewrite in_map_iff. intros (s & E & Hs). rewrite Forall_forall in Hr. specialize (Hr s Hs). lia.
+  - lia.
+  - apply Forall_app. split.
+    + rewrite Forall_forall in *. intros s Hs. specialize (Hr s Hs). lia.
+    + constructor; [|constructor]. cbn [ss_id]. lia.
+  - apply Forall_app. split; auto.
+  - auto.
+  - assert (Hnk: se_mon_has_key key (mo_live m) = false).
+    { destruct (se_mon_has_key key (mo_live m)) eqn:E; auto.
+      apply se_mon_has_key_iff in E. rewrite in_map_iff in E. destruct E as ([a b] & E & Hin).
+      cbn [snd] in E. subst b. apply Hiff in Hin. apply se_pair_in_map in Hin.
+      destruct Hin as (s & Hs & _ & E2). exfalso. eapply se_find_none; eauto. }
+    exists (mkMon ((st_next st, key) :: mo_live m) (st_next st) None). split.
+    + rewrite se_mon_run_app, Hm. cbn [se_mon_run]. unfold se_mon_step. rewrite Hp.
+      assert (mo_max m <? st_next st = true) as -> by lia.
+      rewrite Hnk. reflexivity.
+    + unfold se_mon_rel. cbn [mo_pending mo_max mo_live st_next st_tbl st_leaked].
+      splits; auto; try lia.
+      * cbn [map fst]. constructor; auto. rewrite in_map_iff. intros ([a b] & E & Hin).
+        cbn [fst] in E. subst a. apply Hiff in Hin. apply se_pair_in_map in Hin.
+        destruct Hin as (s & Hs & E1 & _). rewrite Forall_forall in Hr. specialize (Hr s Hs). lia.
+      * intros a b. rewrite Hl0. cbn [map]. rewrite app_nil_r, map_app, in_app_iff.
+        cbn [In map]. rewrite <- Hiff. unfold se_pair. cbn [ss_id ss_key].
+        split; [intros [E|H]; [right; left; auto | left; auto]
+               | intros [H|[E|[]]]; [right; auto | left; auto]].
+Qed.
+
 Lemma se_drop_lib_pair : forall s, se_pair (se_drop_lib s) = se_pair s.
 Proof. reflexivity. Qed.
 
@@ -667,6 +709,8 @@ Proof.
   - unfold se_rx_victim. destruct (se_find key (st_tbl st)) as [s|] eqn:Hf; [discriminate|].
     split; [|exact Ha]. apply se_inv_rx_new; auto.
     intros o Eo. apply se_get_In in Eo. tauto.
+  - split; [|exact Ha]. apply se_inv_accept; auto.
+    destruct (se_find key (st_tbl st)); [discriminate | reflexivity].
   - split; [|exact Ha]. apply se_inv_upd; auto.
     intros s _ E. cbn [se_add_holder ss_ref ss_holders length]. rewrite Nat2Z.inj_succ. lia.
   - split; [|exact Ha]. apply se_inv_upd; auto.
@@ -1182,6 +1226,8 @@ Proof.
     + apply se_holders_nil; auto.
     + intros s' Hs' Is'. rewrite forallb_forall in Hall. specialize (Hall s' Hs').
       rewrite Is' in Hall. cbn [negb orb] in Hall. lia.
+  - (* OpAccept *)
+    destruct Hin as [E|[]]. discriminate.
   - (* OpPrepare *)
     apply se_sweep_free_iff in Hin. destruct Hin as (s & Hs & E & Ex).
     exists s. splits; auto; unfold se_expired in Ex; apply andb_true_iff in Ex; destruct Ex as [Ei Et];
